@@ -26,6 +26,8 @@ struct C12Case {
   bool bystander = false;           // a second task loads and queries a healthy zone concurrently
   int preload = 0;                  // unrelated healthy loads before the hostile one
   int heap_budget_mib = 8;
+  bool via_file = false;            // a third load takes the same bytes from the simulated file system through the built-in file source
+  int file_chunk = 4096;            // ... whose reads return at most this many bytes
   uint64_t sched_seed = 1;
   std::vector<int> schedule;        // explicit schedule when replaying a bystander run
   bool explicit_schedule = false;
